@@ -121,6 +121,8 @@ def make_copy(tag, harness_files, extra_appends=None, narrow=False, cfg_name="ka
         ddir = os.path.join(crate, "src", module_dir_for(parent_rel))
         os.makedirs(ddir, exist_ok=True)
         shutil.copy(hf, os.path.join(ddir, modname + ".rs"))
+        for rel, text in extract_directives(hf, os.path.join(crate, "src")):
+            appends.setdefault(rel, []).append(text)
         appends.setdefault(parent_rel, []).append(
             "#[cfg(%s)]\n#[allow(missing_docs, unused, unused_qualifications, trivial_casts, trivial_numeric_casts, clippy::all, unsafe_code, dead_code)]\nmod %s;\n"
             % (cfg_name, modname)
@@ -133,6 +135,38 @@ def make_copy(tag, harness_files, extra_appends=None, narrow=False, cfg_name="ka
             for l in lines:
                 fh.write(l if l.endswith("\n") else l + "\n")
     return top
+
+
+_EXTRACT = re.compile(r'^//@@ extract file=(\S+) from=("(?:[^"\\]|\\.)*") to=("(?:[^"\\]|\\.)*") sig=("(?:[^"\\]|\\.)*") ret=("(?:[^"\\]|\\.)*")\s*$', re.M)
+
+
+def extract_directives(harness_file, src_root):
+    """Cut-point slices: `//@@ extract file=F from="A" to="B" sig="fn ..." ret="expr"` in a harness
+    file makes the derived copy of F carry, under cfg(kani), a function with signature `sig` whose body
+    is the text of F from the first occurrence of A up to (excluding) the next occurrence of B,
+    followed by `ret`.  The body is taken from the *current* source on every run; a missing anchor
+    raises DeriveError (reported as inconclusive).  Strings use JSON escapes."""
+    import json as _json
+    out = []
+    with open(harness_file) as fh:
+        txt = fh.read()
+    for m in _EXTRACT.finditer(txt):
+        rel = m.group(1)
+        a, b, sig, ret = (_json.loads(m.group(i)) for i in (2, 3, 4, 5))
+        path = os.path.join(src_root, rel)
+        if not os.path.exists(path):
+            raise DeriveError("extract: src/%s no longer exists" % rel)
+        with open(path) as fh:
+            src = fh.read()
+        i = src.find(a)
+        if i < 0:
+            raise DeriveError("extract: start anchor %r not found in src/%s" % (a, rel))
+        j = src.find(b, i + len(a))
+        if j < 0:
+            raise DeriveError("extract: end anchor %r not found in src/%s" % (b, rel))
+        body = src[i:j]
+        out.append((rel, "#[cfg(kani)]\n#[allow(missing_docs, unused, dead_code)]\n%s {\n%s\n    %s\n}\n" % (sig, body, ret)))
+    return out
 
 
 def remove(top):
